@@ -619,8 +619,12 @@ impl Exec {
         match toks.as_slice() {
             ["spawn"] => {
                 let id = w.spawn();
+                // an id that was handed out before - returned by an earlier spawn or announced to a handler (Sender::spawn,
+                // the Spawn event) - must never be returned again, whatever happened in between
+                let dup = ORDS.with(|o| o.borrow().iter().position(|&x| x == id));
                 ORDS.with(|o| o.borrow_mut().push(id));
-                Ok(vec![format!("ret {}", ord_of(id)), format!("id e {}v{}", id.index().0, id.generation())])
+                let dup = dup.map(|k| format!(" DUP#{k}")).unwrap_or_default();
+                Ok(vec![format!("ret {}", ord_of(id)), format!("id e {}v{}{dup}", id.index().0, id.generation())])
             }
             ["despawn", e] => {
                 w.despawn(ord(e).ok_or_else(bad)?);
